@@ -495,17 +495,26 @@ def r_traj(ctx, a):
     f32 = a.get('dtype') == 'float32'
     if f32:   # single-precision states in x64 mode: only the exact-zero pattern is exact on the unchanged tree
         init = jax.tree_util.tree_map(lambda q: jnp.asarray(q, dtype=np.float32), init)
-    run = jax.jit(ti.trajectory_from_step(step, kmax, 1))
-    _, traj = run(init)
-    # purity: the same compiled trajectory evaluated again gives bit-identical states
-    _, traj2 = run(init)
-    ctx.oracle('re-evaluating the same step function on the same state is bit-identical',
-               all(np.array_equal(np.asarray(p), np.asarray(q)) for p, q in zip(dyn.tree_leaves(traj), dyn.tree_leaves(traj2))))
-    ctx.oracle('trajectory finite', dyn.tree_all_finite(traj))
+    if f32:
+        # the step promotes single-precision input to float64 (numpy tables), which lax.scan cannot carry: python loop
+        jstep = jax.jit(step); frames = []; x = init
+        for _ in range(kmax):
+            x = jstep(x); frames.append(x)
+        get_frame = lambda k: jax.tree_util.tree_map(np.asarray, frames[k - 1])
+        ctx.oracle('trajectory finite', all(dyn.tree_all_finite(fr) for fr in frames))
+    else:
+        run = jax.jit(ti.trajectory_from_step(step, kmax, 1))
+        _, traj = run(init)
+        # purity: the same compiled trajectory evaluated again gives bit-identical states
+        _, traj2 = run(init)
+        ctx.oracle('re-evaluating the same step function on the same state is bit-identical',
+                   all(np.array_equal(np.asarray(p), np.asarray(q)) for p, q in zip(dyn.tree_leaves(traj), dyn.tree_leaves(traj2))))
+        ctx.oracle('trajectory finite', dyn.tree_all_finite(traj))
+        get_frame = lambda k: jax.tree_util.tree_map(lambda q: np.asarray(q)[k - 1], traj)
     has_time = kind not in ('dry', 'sw')
     typ = {n: max(float(np.max(np.abs(x))), 1e-300) for n, x in _leaves(x0)}
     for k in a['ks']:
-        frame = jax.tree_util.tree_map(lambda q: np.asarray(q)[k - 1], traj)
+        frame = get_frame(k)
         sts = list(frame) if lf else [frame]
         for st in sts:
             _check_pattern(ctx, 'entries outside the triangular truncation and at the clipped top total wavenumber stay exactly zero', st, req)
